@@ -205,10 +205,10 @@ def main(tier):
                    'Intel SDM definition of GF2P8AFFINEQB bit order']
     rep.analysed = dict(units=['erasure_code/ec_base.c', 'erasure_code/ec_highlevel_func.c', 'erasure_code/ec_base.h'],
                         configurations=['default', 'gflarge'], functions=['gf_vect_mul_init (64-bit branch)', 'gf_vect_mul_init (bytewise branch)', 'gf_mul', 'gf_inv'])
-    _tables(rep, 'default')
-    _tables(rep, 'gflarge')
-    _table_writers(rep)
-    _gfinit(rep, 'word64')
-    _gfinit(rep, 'bytewise')
-    check_log_zero(rep)
+    rep.attempt(_tables, rep, 'default')
+    rep.attempt(_tables, rep, 'gflarge')
+    rep.attempt(_table_writers, rep)
+    rep.attempt(_gfinit, rep, 'word64')
+    rep.attempt(_gfinit, rep, 'bytewise')
+    rep.attempt(check_log_zero, rep)
     return rep.finish()
